@@ -197,7 +197,52 @@ fn camel(s: &str) -> String {
 }
 
 /// Emits the per-program adapter: `impl EqvFacade for <Model>`.
-pub fn emit_adapter(p: &Program, mf: &ModelFields) -> String {
+/// The rule invocations of one iteration of the emitted `close_until` loop: (rule function name,
+/// code snippet `let env = XEnv { .. }; x(env);`), plus the statements that precede the loop's first
+/// condition evaluation (canonicalize / recompute_model_indices).
+pub fn parse_rule_calls(module: &str) -> Option<(String, Vec<(String, String)>)> {
+    let start = module.find("pub fn close_until(")?;
+    let rest = &module[start..];
+    let body_start = rest.find('{')? + 1;
+    let cond = rest.find("if condition(self)")?;
+    let prelude = rest[body_start..cond].trim().to_string();
+    let lp = rest.find("\nloop {")? + "\nloop {".len();
+    let end = rest[lp..].find("self.move_new_to_old();")? + lp;
+    let calls_text = &rest[lp..end];
+    let mut calls = Vec::new();
+    let parts: Vec<&str> = calls_text.split("let env = ").collect();
+    for part in parts.iter().skip(1) {
+        let snippet = format!("let env = {}", part.trim_end());
+        // the call is the last statement: `<name>(env);`
+        let call_line = snippet.lines().rev().find(|l| l.trim().ends_with("(env);"))?;
+        let name = call_line.trim().trim_end_matches("(env);").to_string();
+        calls.push((name, snippet));
+    }
+    Some((prelude, calls))
+}
+
+/// Fields of the emitted `ModelDelta` struct: (name, arity).
+pub fn parse_delta_fields(module: &str) -> Vec<(String, usize)> {
+    let mut out = Vec::new();
+    if let Some(start) = module.find("struct ModelDelta {") {
+        for line in module[start..].lines().skip(1) {
+            let line = line.trim().trim_end_matches(',');
+            if line.starts_with('}') {
+                break;
+            }
+            if let Some((name, ty)) = line.split_once(": ") {
+                if let Some(n) = ty.strip_prefix("Vec<[u32; ").and_then(|r| r.strip_suffix("]>")) {
+                    if let Ok(n) = n.parse::<usize>() {
+                        out.push((name.to_string(), n));
+                    }
+                }
+            }
+        }
+    }
+    out
+}
+
+pub fn emit_adapter(p: &Program, mf: &ModelFields, module: &str) -> String {
     use std::fmt::Write;
     let m = &mf.model_name;
     let mut s = String::new();
@@ -375,6 +420,30 @@ pub fn emit_adapter(p: &Program, mf: &ModelFields) -> String {
     }
     let _ = writeln!(s, "let _ = write!(out, \"F {{}}\\n\", if self.empty_join_is_dirty {{ 1 }} else {{ 0 }});");
     let _ = writeln!(s, "}}");
+    // C16 (dynamic): the rule invocations of ONE loop iteration of close_until, copied from the emitted
+    // text, each run into a fresh ModelDelta whose vectors (one entry per enumerated match) are printed.
+    let _ = writeln!(s, "fn eqv_rules_once(&mut self, out: &mut String) {{ use std::fmt::Write;");
+    match parse_rule_calls(module) {
+        Some((prelude, calls)) => {
+            let _ = writeln!(s, "{}", prelude);
+            let _ = writeln!(s, "out.push_str(\"dump\\n\"); eqv_dump_public(self, out); self.eqv_dump_private(out); out.push_str(\"end\\n\");");
+            let fields = parse_delta_fields(module);
+            for (name, snippet) in calls {
+                let _ = writeln!(s, "{{ let mut delta = ModelDelta::new();");
+                let _ = writeln!(s, "{{ {} }}", snippet);
+                let _ = writeln!(s, "let _ = writeln!(out, \"rule {}\");", name);
+                for (f, _) in &fields {
+                    let _ = writeln!(s, "if !delta.{}.is_empty() {{ let _ = write!(out, \"D {} :\"); for t in delta.{}.iter() {{ let _ = write!(out, \" {{}}\", if t.is_empty() {{ \"()\".to_string() }} else {{ eqv_fmt_tuple(t) }}); }} out.push('\\n'); }}", f, f, f);
+                }
+                let _ = writeln!(s, "}}");
+            }
+            let _ = writeln!(s, "out.push_str(\"endrules\\n\");");
+        }
+        None => {
+            let _ = writeln!(s, "out.push_str(\"norules\\n\");");
+        }
+    }
+    let _ = writeln!(s, "}}");
     let _ = writeln!(s, "}}");
     s
 }
@@ -455,7 +524,7 @@ fn stage_one(scratch: &Scratch, i: usize, theory: &str, p: &Program, source: &st
         Some(f) => f,
         None => return Err(BuildError::Infra("cannot parse model struct".into())),
     };
-    let adapter = emit_adapter(p, &fields);
+    let adapter = emit_adapter(p, &fields, &module_text);
     std::fs::write(dir.join("adapter.rs"), &adapter).unwrap();
     Ok(Staged { theory: theory.to_string(), dir, module_path, module_text, fields })
 }
